@@ -19,6 +19,7 @@ from mc.common import call, Raised, DimArray, same_scalar, py
 from mc.props import c01
 
 ID = "C03"
+VARIANT_SWEEP = True      # thorough tier: every case on every history variant of its array (see mc/domains.py VSHIFT)
 TITLE = "assignment writes exactly the addressed cells"
 RULE = ("product of (float/int/bool/object arrays 1-3D with mixed-kind axes) x (index menus of C01/C02 in label and "
         "position mode + N-d boolean masks) x RHS (scalar, array of the selection's shape, broadcastable row, 0-d) x "
